@@ -284,11 +284,23 @@ def _progress(ctx: Ctx, c: Collector) -> None:
     if not checks:
         problems.append("registered triggers are not re-evaluated")
     if stores and checks:
-        st, chk = stores[0], checks[0]
+        chk = checks[0]
+        # the store on the path that reaches the re-evaluation (an early exit for "nothing can fire" -- the time
+        # does not move, nobody waits -- has a store of its own)
+        on_path = [e for e in stores if e.idx < chk.idx and all(g in chk.guards for g in e.guards)]
+        st = on_path[-1] if on_path else stores[0]
         if st.idx > chk.idx:
             problems.append("triggers are re-evaluated before the new time is stored")
-        if [x for x in guard_terms(st.guards) if x != T.canon_cmp("<=", ("attr", me, "time"), newt)]:
+        if [x for x in guard_terms(st.guards) if x != T.canon_cmp("<=", ("attr", me, "time"), newt) and T.guard_term(("g", x, True)) not in guard_terms(chk.guards)]:
             problems.append("the store is conditional")
+        # ways out before the scan: only when no registered trigger can fire (unchanged time / no waiter), and the time is stored
+        for r in s.returns:
+            if r.idx < chk.idx:
+                gts = guard_terms(r.guards)
+                ok_exit = any(x in (T.canon_cmp("==", ("attr", me, "time"), newt), ("not", futs), ("or", (T.canon_cmp("==", ("attr", me, "time"), newt), ("not", futs))), ("or", (T.canon_cmp("==", newt, ("attr", me, "time")), ("not", futs)))) for x in gts) \
+                    and any(e.idx < r.idx and e.guards == r.guards and e.term[2] == newt for e in stores)
+                if not ok_exit:
+                    problems.append(f"set() returns before the registered triggers are re-evaluated when {' and '.join(T.show(x)[:50] for x in gts) or 'always'}")
         # iteration covers the whole list
         if len(chk.iters) != 1:
             problems.append("trigger re-evaluation is not inside exactly one loop over _futures")
@@ -317,6 +329,15 @@ def _progress(ctx: Ctx, c: Collector) -> None:
                         problems.append(f"set_result additionally conditional on {T.show(x)}")
             if form == "index-forward" and dels:
                 problems.append("entries are deleted by index while iterating forwards: the element after a removed one is skipped")
+            # ... or the list is rebuilt from the entries that did not fire
+            rebuilt = [e for e in s.of_kind("store") if e.term[1] == futs and e.idx > chk.idx]
+            if rebuilt and not dels:
+                kept = unalias(rebuilt[-1].term[2], s, fi)
+                appends = [e for e in s.of_kind("call") if e.term[1][0] == "attr" and e.term[1][2] == "append" and e.iters == chk.iters]
+                keeps_untriggered = any(any(is_call_to(x, "_triggered_time") or (x[0] == "not" and is_call_to(x[1], "_triggered_time")) for x in guard_terms(e.guards[len(chk.guards):])) for e in appends) \
+                    or (kept[0] == "bag" and any(any(is_call_to(y, "_triggered_time") for y in T.subterms((g,))) for el in kept[1] for g in el[2]))
+                if keeps_untriggered:
+                    form = "copy-rebuild"
             if not dels and form != "copy-rebuild":
                 problems.append("triggered entries are never removed from _futures")
             for e in dels:
@@ -348,6 +369,8 @@ def _whole_list_iteration(src: Term, futs: Term) -> Optional[str]:
             call(T.glob("list"), futs), call(T.glob("list"), call(T.glob("enumerate"), futs))):
         return "copy"
     if src == futs:
+        return "direct"
+    if src == call(T.glob("reversed"), futs):
         return "direct"
     # range(k, len) / range(len - k) with a non-zero constant: definitely not the whole list
     for r in T.find(src, lambda x: x[0] == "call" and x[1] == T.glob("range")):
